@@ -80,6 +80,17 @@ CHECKS = {
         "io_uring backend: no heartbeat clock (known finding, see C20).",
    technique="TLA+ spec (Heartbeat.tla) + TLC; TLC timelines replayed on the real engine and egress buffer",
    design_ref="DESIGN.md 5 (C19)"),
+ "C01": dict(
+   text="Delivery.tla is the property-level specification (Offer/Accept/Refuse/Deliver/Quiesce: exactly once, per-connection "
+        "order, intact, nothing accepted is lost); Session.tla models the session actor's batch assembly (carry-over, count / "
+        "logical / physical limits, HWM budget) and is checked exhaustively by TLC (InOrder, Conserved, EgressBound, AllOut). "
+        "Real sockets (PUSH/PULL, DEALER/ROUTER, REQ/REP x tcp/ipc/inproc x both runtimes x HWM/batch/throttle/cork options x "
+        "sizes from the model's boundary analysis x receiver pacing x time of first send) produce API histories which TLC "
+        "validates against Delivery.tla (Trace_Delivery); a rejected history is a violation.",
+   note="One sending task per connection; Tokio schedules are observed, not enumerated; payload integrity checked by "
+        "position-dependent fill. Trusted: history->event conversion in tools/props/socklib.py.",
+   technique="TLA+ specs (Delivery.tla, Session.tla) + TLC; TLC trace validation of API histories recorded from real sockets",
+   design_ref="DESIGN.md 4.3, 5 (C01)"),
 }
 
 NA_DEFAULT = "check not built yet (construction in progress; see DESIGN.md section 10)"
